@@ -32,6 +32,7 @@ type Config struct {
 	BlockSize      int    `json:"blocksize,omitempty"`
 	WALFailover    bool   `json:"walfailover,omitempty"`
 	TableStats     bool   `json:"tablestats,omitempty"` // table statistics collection on (enables delete-only / elision-only compactions)
+	AutoDefault    bool   `json:"autodefault,omitempty"` // automatic compactions on with Pebble's DEFAULT thresholds (no forced L0 compaction)
 }
 
 // Options builds pebble.Options for this configuration on fs.
@@ -39,10 +40,10 @@ func (c Config) Options(fs vfs.FS) *pebble.Options {
 	o := &pebble.Options{
 		FS:                          fs,
 		Comparer:                    testkeys.Comparer,
-		DisableAutomaticCompactions: !c.AutoCompact,
+		DisableAutomaticCompactions: !(c.AutoCompact || c.AutoDefault),
 		FormatMajorVersion:          pebble.FormatNewest,
 		MemTableSize:                256 << 10,
-		L0CompactionThreshold:       1000,
+		L0CompactionThreshold:       l0Threshold(c),
 		L0StopWritesThreshold:       100000,
 		DisableWAL:                  c.DisableWAL,
 		CompactionConcurrencyRange:  func() (int, int) { return 1, 1 },
@@ -477,3 +478,13 @@ func (c Config) Supports(op Op) bool {
 	}
 	return true
 }
+
+func l0Threshold(c Config) int {
+	if c.AutoDefault {
+		return 4 // Pebble's default
+	}
+	return 1000
+}
+
+// Auto reports whether background compactions are enabled in this configuration.
+func (c Config) Auto() bool { return c.AutoCompact || c.AutoDefault }
